@@ -116,8 +116,15 @@ class Ops:
 
     def tag(self, tv, kind: str, node, **data):
         """Emits a structural-op event with a fresh id and threads the id through the result's origin."""
-        self._tag_n = getattr(self, "_tag_n", 0) + 1
-        tid = f"{kind}#{self._tag_n}"
+        # one id per (operator site, call path): the fixpoint rounds of an abstract loop re-execute a site without minting new ids
+        if not hasattr(self, "_tag_ids"):
+            self._tag_ids = {}
+        key = (kind, getattr(node, "lineno", 0), getattr(node, "col_offset", 0), getattr(node, "end_col_offset", 0),
+               tuple(getattr(self.interp, "site_stack", ())), tuple(f.qualname for f in getattr(self.interp, "call_stack", ())))
+        if key not in self._tag_ids:
+            self._tag_n = getattr(self, "_tag_n", 0) + 1
+            self._tag_ids[key] = self._tag_n
+        tid = f"{kind}#{self._tag_ids[key]}"
         self.ev("sop", node, sop=kind, id=tid, **data)
         if isinstance(tv, TV):
             return tv.but(origin=tv.origin | {tid})
